@@ -122,8 +122,8 @@ func init() {
 		ID:         "C34",
 		Level:      "other",
 		Technique:  "writer/reader field-set agreement per descriptor-proto message between protodesc's To*DescriptorProto functions, its NewFile pipeline and the descriptor schema, with a reviewed exception table (static)",
-		Explain:    "Decides a structural necessary condition of lossless conversion between descriptor protos and descriptors: for each of the eleven descriptor-proto message types, the set of fields written by the To*DescriptorProto functions equals the set of fields read by protodesc's NewFile pipeline (initialisation, resolution, validation), and every field of the generated descriptorpb struct is written — a field dropped on either side makes the round trip lossy for every schema that uses it. Exceptions are listed with reasons. The resolved features that both descriptor builders derive from the protos (field presence, packedness, …) are defined by the same FeatureSet values and option overrides in both (R-FEATURE-FIELDS), so a descriptor rebuilt from its proto has the features of the generated one. The presence-carrying optional scalars of FieldDescriptorProto (proto3_optional, json_name, default_value, oneof_index) are written each under exactly the accessor that NewFile feeds from that field (R-DESC-WRITE-GUARD).",
-		NotCovered: "value-level equality of the round trip (names, defaults, options content, features) and the documented normalisations.",
+		Explain:    "Decides a structural necessary condition of lossless conversion between descriptor protos and descriptors: for each of the eleven descriptor-proto message types, the set of fields written by the To*DescriptorProto functions equals the set of fields read by protodesc's NewFile pipeline (initialisation, resolution, validation), and every field of the generated descriptorpb struct is written — a field dropped on either side makes the round trip lossy for every schema that uses it. Exceptions are listed with reasons. The resolved features that both descriptor builders derive from the protos (field presence, packedness, …) are defined by the same FeatureSet values and option overrides in both (R-FEATURE-FIELDS), so a descriptor rebuilt from its proto has the features of the generated one. The presence-carrying optional scalars of FieldDescriptorProto (proto3_optional, json_name, default_value, oneof_index) are written each under exactly the accessor that NewFile feeds from that field (R-DESC-WRITE-GUARD). Also: protodesc reads GetDefaultValue()/GetPacked() only under the presence test of the pointer field (`default = \"\"` is a default; an absent packed option is not packed = false).",
+		NotCovered: "value-level equality of the round trip (names, options content, features) and the documented normalisations.",
 		Quick:      all("./reflect/protodesc", "./internal/filedesc", "./types/descriptorpb"),
 		Thorough:   all("./..."),
 		Run: func(c *Ctx) {
@@ -138,7 +138,7 @@ func init() {
 		ID:         "C37",
 		Level:      "other",
 		Technique:  "field-set containment per descriptor-proto message between the compact raw-descriptor parser (internal/filedesc) and protodesc's reader, with a reviewed exception table; presence-vs-value agreement of the parser clauses; CFG dominance of the RequiredNumbers appends (static)",
-		Explain:    "Decides a structural necessary condition of agreement between the two descriptor builders: for each descriptor-proto message type, every field that protodesc.NewFile reads is also handled (by its genid field-number constant) in the compact builder's seed or lazy parser in internal/filedesc, and vice versa; a field parsed by only one builder makes the two descriptors of the same file disagree on the accessor it feeds. Exceptions are listed with reasons. Feature resolution agreement (R-FEATURE-FIELDS) is part of this check. Two derived facts are compared as well: a field that protodesc treats by presence (`!= nil` on an optional scalar) is stored by the compact parser without any branch on the consumed value (presence is reaching the clause), and both constructions list a field in RequiredNumbers under the test of its resolved cardinality.",
+		Explain:    "Decides a structural necessary condition of agreement between the two descriptor builders: for each descriptor-proto message type, every field that protodesc.NewFile reads is also handled (by its genid field-number constant) in the compact builder's seed or lazy parser in internal/filedesc, and vice versa; a field parsed by only one builder makes the two descriptors of the same file disagree on the accessor it feeds. Exceptions are listed with reasons. Feature resolution agreement (R-FEATURE-FIELDS) is part of this check. Two derived facts are compared as well: a field that protodesc treats by presence (`!= nil` on an optional scalar) is stored by the compact parser without any branch on the consumed value (presence is reaching the clause), and both constructions list a field in RequiredNumbers under the test of its resolved cardinality. Further: per descriptor kind, the option fields protodesc promotes into the descriptor equal the genid option constants the compact builder matches for that kind (found D23, D24); every assignment of resolved features is the inheritance from the parent descriptor or the override of the descriptor's own value; default_value/packed are read under presence tests only.",
 		NotCovered: "agreement of accessor results on concrete files (values), option message contents (kept raw by the compact builder), and the lazy/eager split inside filedesc.",
 		Quick:      all("./reflect/protodesc", "./internal/filedesc", "./types/descriptorpb"),
 		Thorough:   all("./..."),
